@@ -1,5 +1,8 @@
 SPECIFICATION Spec
 CONSTANTS MaxTok = 120
+MaxGroups = 1000
+Letters <- LettersAll
+Modes <- ModesAll
 Coords <- CoordsSim
 Radii <- RadiiSim
 Rots <- RotsSim
